@@ -673,6 +673,13 @@ func (uconn *UConn) MarshalClientHelloNoECH() error {
 		helloLen += 2 + extensionsLen // 2 bytes for extensions' length
 	}
 
+	// Every length below is written into a fixed-width field. Refuse what does not fit
+	// instead of silently truncating the length prefix and emitting a malformed ClientHello.
+	if len(hello.SessionId) > 0xff || len(hello.CipherSuites)*2 > 0xffff ||
+		len(hello.CompressionMethods) > 0xff || extensionsLen > 0xffff {
+		return errors.New("utls: ClientHello too large: session id, cipher suites, compression methods or extensions do not fit their length fields")
+	}
+
 	helloBuffer := bytes.Buffer{}
 	bufferedWriter := bufio.NewWriterSize(&helloBuffer, helloLen+4) // 1 byte for tls record type, 3 for length
 	// We use buffered Writer to avoid checking write errors after every Write(): whenever first error happens
